@@ -1114,14 +1114,14 @@ theorem step_InvR {K : Keys} {W : Tx → Prop} {rank : TxId → Nat} (U : Univ K
   | submitNet t tr mf => exact submitNet_InvR U mf s t tr h (hW t (by simp [Op.txs]))
   | submitLocal t mf => exact submitLocal_InvR U mf s t h (hW t (by simp [Op.txs]))
   | block hh txs mf => exact blockMined_InvR U mf _ txs (connectUtxo_InvR s hh txs h hW)
-  | undo mf =>
+  | undo uh mf =>
     simp only [step]
     cases hd : disconnectUtxo s with
     | none => exact h
     | some p =>
       obtain ⟨s', txs⟩ := p
       obtain ⟨h1, h2⟩ := disconnectUtxo_InvR s s' txs h hd
-      exact blockUndone_InvR U mf s' txs h1 h2
+      exact expire_InvR U _ _ (blockUndone_InvR U mf s' txs h1 h2)
   | tip hh => exact InvR_of_frame h (Frame.of_eq rfl rfl rfl rfl rfl rfl)
   | expire old => exact expire_InvR U old s h
   | evict v =>
